@@ -242,7 +242,7 @@ example :
        { method := s "TRACE", path := s "/orders/:orderId/items", summary := [], description := [], opID := [], req := none, resps := [] }]
     (ops.all (fun op => validatePath op.path) &&
      (match generate .v30 true none [] ops with
-      | .ok d => docOK .v30 ops d && d.opIds == [s "createOrderItem"]
+      | .ok d => docOK .v30 ops d && d.opIds == [s "createOrderItemByOrderId"]
       | .error _ => false)) = true := by decide
 
 /-- **validation_transparent.** Switching on the built-in validation never rejects a document the
